@@ -102,6 +102,7 @@ type Res struct {
 	Bad     []string
 	NRunes  int
 	LateErr []string
+	LateShape []string
 	Hist    []Res
 	// conc mode
 	Overlap    int
